@@ -22,6 +22,7 @@ deriving DecidableEq, Repr, Inhabited
 /-- period transforms available to a formula -/
 inductive PTrans
   | same | thisYear | firstMonth | lastMonth | lastYear | offset (n : Int) (u : DUnit)
+  | fixed (p : Period)       -- a period that does not depend on the formula's own period
 deriving DecidableEq, Repr, Inhabited
 
 /-- declarative formula expressions -/
@@ -62,11 +63,12 @@ def applyPT (p : Period) : PTrans → Except String Period
   | .lastMonth => p.lastMonth
   | .lastYear => p.lastYear
   | .offset n u => p.offset (.n n) (some u)
+  | .fixed q => .ok q
 
 /-- `_check_period_consistency` (with the DAY / WEEKDAY branches): the period a request for a
     variable of definition unit `u` is served under, or an error -/
 def servedPeriod (u : DUnit) (q : Period) : Except String Period :=
-  if u = .eternity then .ok Period.eternity
+  if u = .eternity then .ok q          -- every period is accepted; the value is STORED under ETERNITY
   else if q.unit ≠ u then .error "unit"
   else if q.size ≠ 1 then .error "size"
   else .ok q
@@ -163,12 +165,18 @@ def elabExpr (d : Decl) (ent : Nat) (p : Period) : DExpr → Expr Period
   | .op2 o a b => .op2 o (elabExpr d ent p a) (elabExpr d ent p b)
   | .fail id a => .fail id (elabExpr d ent p a)
 
-/-- start ordinal used to select the formula: the period's start (eternal nodes take the
-    earliest possible date: eternal variables carry at most one undated formula) -/
-def startOrdOf (p : Period) : Int := if p.unit = .eternity then 1 else ord p.start
+/-- start ordinal used to select the formula: the period's start (never below day 1: the code
+    cannot build an `Instant.date` before 0001-01-01; the ETERNITY period itself has no date) -/
+def startOrdOf (p : Period) : Int := if p.unit = .eternity then 1 else max 1 (ord p.start)
+
+/-- the period a value of variable `v` requested for `p` is stored under -/
+def storageKey (d : Decl) (v : Nat) (p : Period) : Period :=
+  match d.vars[v]? with
+  | some vv => if vv.unit = .eternity then Period.eternity else p
+  | none => p
 
 def inputLookup (d : Decl) (v : Nat) (p : Period) : Option Val :=
-  (d.inputs.find? (fun i => i.1 = v ∧ i.2.1 = p)).map (·.2.2)
+  (d.inputs.find? (fun i => i.1 = v ∧ storageKey d v i.2.1 = storageKey d v p)).map (·.2.2)
 
 /-- the node-level system -/
 def elabSys (d : Decl) (armed : List Nat) : Sys Period where
@@ -195,6 +203,7 @@ def elabSys (d : Decl) (armed : List Nat) : Sys Period where
   noStore v := match d.vars[v]? with
     | none => false
     | some vv => vv.noStore
+  ckey := storageKey d
 
 /-- a top-level `Simulation.calculate(v, q)`: the node it is served under -/
 def requestNode (d : Decl) (v : Nat) (q : Period) : Except String (Node Period) :=
